@@ -89,6 +89,8 @@ class CallMixin:
                 if h is not None:
                     return h(obj)
                 return self.static_val(BoundBuiltin(f'{c.name}.{name}', obj))
+            if c.is_subclass(builtin_class('HTTPException')) and name == 'get_response':
+                return self.static_val(BoundBuiltin('httpexc.get_response', obj))
             if c.is_subclass(builtin_class('BaseException')) and name == 'with_traceback':
                 return self.static_val(BoundBuiltin('exc.with_traceback', obj))
             om = getattr(self, 'oracle_methods', {}).get(c.name, {})
@@ -610,7 +612,7 @@ class CallMixin:
                 if self.branch(fv == cand):
                     return self.call(cand, args, kwargs, star, dstar, node)
         c = self.require_class(fv, 'callee')
-        if c.builtin and c.is_subclass(builtin_class('UserCallable')):
+        if c.builtin and (c.is_subclass(builtin_class('UserCallable')) or c.name in getattr(self, 'oracles', {})):
             return self.oracle_call(fv, args, kwargs, star, dstar, node)
         if c.builtin and c.name == 'partial':
             return self.oracle_call(fv, args, kwargs, star, dstar, node)
@@ -623,6 +625,8 @@ class CallMixin:
         return getattr(self, 'hint_classobj', {}).get(smt.simp(fv).get_id())
 
     def ext_object_call(self, so: ExtObject, args, kwargs):
+        if so.name.endswith('.response_class'):
+            return self.builtin_call('werkzeug.Response', args, kwargs)       # flask's current_app.response_class
         if so.name.startswith('logger'):
             if so.name.endswith('.getChild'):
                 return self.static_val(ExtObject('logger'))
@@ -641,6 +645,13 @@ class CallMixin:
             fi, cframe, defaults = f.func, f.frame, f.defaults
         else:
             fi, cframe, defaults = f, None, None
+        cur = getattr(self, 'current_contract', None)
+        oc = (cur.extra.get('oracle_calls') or {}).get(fi.qualname) if cur is not None else None
+        if oc is not None and fi.qualname not in self.no_contract_for:
+            # this caller treats the callee as an abstract callable (its own contract is proved elsewhere)
+            at = self.mk_tuple(list(args[1:]) if fi.cls is not None else list(args))
+            kd = self.mk_dict([(smt.mk_str(k), v) for k, v in kwargs.items()])
+            return self.oracle_outcome(oc, f'call:{fi.name}', args[0] if fi.cls is not None else smt.NONE, at, kd)
         ct = self.contracts.get(fi.qualname)
         if ct is not None and fi.qualname not in self.no_contract_for:
             extra_env = {}
